@@ -355,6 +355,8 @@ def main(argv):
           'inconclusive_reasons': dict(total.inconclusive_reasons),
           'known_finding_hits': dict(total.known),
           'phases': sub,
+          'fuzz_executions': sum(c.get('executions', 0) for info in extra_info
+                                 for c in info.get('campaigns', [])),
           'exhaustive': False,
           'gin_under_test': os.environ.get('VERIF_REPO', '/repo'),
       },
